@@ -99,7 +99,7 @@ pub fn twice(ctx: &mut Ctx, v: f64, p1: (f32, u8, u32), p2: (f32, u8, u32)) {
 pub fn run(ctx: &mut Ctx) {
     ctx.rule = "new_approx calls over a dense k/9600 grid, every table fraction ±1/±8 ulp and ±1e-4..1e-2, a log grid, random values, \
 non-finite and non-positive values; max_den sampled from 1..=64, accuracies {0,.01,.05,.5,1}, whole limits {0,1,5,u32::MAX}; \
-non-trivial = the call returned Some(_); distinct = distinct request lines".into();
+printing: the plain and the alternate (#) Display form of numbers (corner values, all magnitudes, powers of two and ten and their neighbours, k/1000, hand-made fractions over every print arm and error threshold, results of new_approx), values, ranges, scalable values, quantities with/without unit, grouped values/quantities, and std's Display for f64 itself (plain and with the + flag) compared with the model's exact shortest-round-trip printer; non-trivial = the call returned Some(_) (every printing case counts); distinct = distinct request lines".into();
     let mut rng = Rng::new(ctx.seed ^ 0xC12);
     let accs: [f32; 6] = [0.0, 0.01, 0.05, 0.1, 0.5, 1.0];
     let wholes: [u32; 5] = [0, 1, 5, 1000, u32::MAX];
@@ -173,6 +173,8 @@ non-trivial = the call returned Some(_); distinct = distinct request lines".into
             ctx.count("quantities-through-fit/try_fraction");
         }
     }
+    // the printing code (Display for Number / Value / Quantity / groups, std's Display for f64) against the model
+    crate::props::c12_display::run(ctx);
     // log grid and random
     let n_rand = if ctx.thorough { 3_000_000 } else { 40_000 };
     for i in 0..n_rand {
